@@ -234,13 +234,44 @@ class CallMixin:
     # only WRITES outside the lock break the discipline the properties rest on; an unlocked read (a racy pre-check that is
     # repeated under the lock, a monitoring read) is not a violation of any of them
     if what in ('read', 'contains', 'get', 'items', 'keys', 'values', '__len__'):
+      # ... but it is remembered: a later write must not be computed from a value read while the lock was free
+      if m.guard is not None and not self.spec_mode:
+        self.__dict__.setdefault('guarded_reads', []).append((m, m.val, m.has, m.none, m.guard.held > 0))
       return
     if m.guard is not None and m.guard.held == 0 and not self.spec_mode:
       self.oblige(f'{self.cur_name}/lock-discipline[{what}]', z3.BoolVal(False), 'lock-discipline',
                   {'text': f'{what} of a map guarded by {m.guard.name} outside the lock'})
 
+  def stale_read_check(self, m, v):
+    """check-then-act: the value written into a guarded map (under its lock) must not depend on an entry of that map read
+    while the lock was free, unless the map was read again under the lock since (the usual re-check)."""
+    reads = [r for r in self.__dict__.get('guarded_reads', ()) if r[0] is m]
+    if not reads or reads[-1][4] or m.guard is None or m.guard.held == 0:
+      return
+    try:
+      pv = v.val if isinstance(v, VOpt) else v
+      t = self.unwrap(m.vkind, pv) if not isinstance(pv, VNoneT) else None
+    except Unsupported:
+      return
+    if t is None:
+      return
+    arrays = {a.get_id() for r in reads if not r[4] for a in r[1:4] if a is not None}
+    todo, seen = [t], set()
+    while todo:
+      x = todo.pop()
+      if x.get_id() in seen:
+        continue
+      seen.add(x.get_id())
+      if z3.is_select(x) and x.arg(0).get_id() in arrays:
+        self.oblige(f'{self.cur_name}/lock-discipline[write from a read made outside {m.guard.name.split(".")[-1]}]', z3.BoolVal(False), 'lock-discipline',
+                    {'text': f'the value written under {m.guard.name} is computed from an entry read while the lock was free and not read again under it (check-then-act)'})
+        return
+      todo.extend(x.children())
+
   def map_store(self, m, key, v, move_to_end=False):
     self.check_guard(m, 'write')
+    if not self.spec_mode:
+      self.stale_read_check(m, v)
     k = self.unwrap_key(m, key)
     m.keys_seen.append(k)
     was = z3.Select(m.has, k)
